@@ -17,13 +17,23 @@ def run(tier):
     chk.add_mc("MC_Spline/Flatten", r, {"MaxDep": dep})
     chk.cov["exhaustive"] = True
     cases = os.path.join(d, "cases.ndjson")
-    vf.run_harness(binpath, ["spline", "gen", "--seed", vf.seed(), "--tier", tier], stdout_path=cases)
+    allcases = os.path.join(d, "all_cases.ndjson")
+    vf.run_harness(binpath, ["spline", "gen", "--seed", vf.seed(), "--tier", tier], stdout_path=allcases)
+    # from_rays is a constructor the statement does not mention: its cases are judged as extra coverage
+    rays = os.path.join(d, "rays.ndjson")
+    with open(allcases) as f, open(cases, "w") as fc, open(rays, "w") as fr:
+        for ln in f:
+            (fr if '"op":"rays"' in ln else fc).write(ln)
     vf.exec_and_validate(chk, binpath, "spline", "TV_Spline", cases, jvms=10, what="call")
+    before = (chk.cov["traces_validated_against_impl"], chk.cov["evaluations"])
+    nr, _, badr = vf.exec_and_validate(chk, binpath, "spline", "TV_Spline", rays, jvms=2, what="from_rays call", as_notes=True)
+    chk.cov["traces_validated_against_impl"], chk.cov["evaluations"] = before
     # growth beyond the statement: smoothstep / smootherstep on the 1/16 lattice (notes only)
     extra = os.path.join(d, "extra.ndjson")
     vf.run_harness(binpath, ["spline", "gen", "extra"], stdout_path=extra)
     ne, _, bade = vf.exec_and_validate(chk, binpath, "spline", "TV_Spline", extra, jvms=1, what="smoothstep call", as_notes=True)
-    chk.cov["extra_coverage"] = {"smoothstep_calls_validated": ne, "rejected": len(bade)}
+    chk.cov["extra_coverage"] = {"smoothstep_calls_validated": ne, "rejected": len(bade),
+                                 "from_rays_calls_validated": nr, "from_rays_rejected": len(badr)}
     chk.cov["distinct_nontrivial"] = chk.cov["traces_validated_against_impl"]
     chk.cov["rule"] = ("seeded integer control polygons over several magnitudes for f32, Vec2, Point2, Vec3 and Color3f; "
                        "cubic eval / fast_eval / tangent at t = k/64 incl. t <= 0 and t >= 1; splines of 1..8 segments at "
